@@ -46,7 +46,7 @@ Definition table : list row := [
      `signatures` is bound by the enclosing `for (names, signatures, language) in vec![(&mapfile.ins_names, &mapfile.ins_signatures, ..), ..]`: a Vec<(i32, Sp<String>)>; the name collides with CallRegSignatures::signatures *)
   mk_row "context/defs.rs" "CompilerContext::extend_from_mapfile" "iter" "signatures.iter()" 1 ["fbf095918e"] PinDecl NotHash "";
   (* line 796; enums:field: IdMap<Ident,EnumData>|field: IdMap<Ident,ScalarValueMap<Sp<Ident>>>|field: IdMap<Sp<Ident>,Vec<(i32,Sp<Ident>)>>
-     DEFECT: Mapfile::enums is an IdMap; each entry is declared in iteration order: declare_enum, then define_enum_const allocates DefIds, pushes to Consts::deferred_ids and to deferred_equality_checks -- and evaluate_all_deferred reports only the FIRST failing equality check, so which "ambiguous value for enum const" error appears depends on the hash order (fixes/c19-mapfile-enum-order.diff) *)
+     DEFECT: Mapfile::enums is an IdMap; each entry is declared in iteration order: declare_enum, then define_enum_const allocates DefIds, pushes to Consts::deferred_ids and to deferred_equality_checks -- and evaluate_all_deferred reports only the FIRST failing equality check, so which "ambiguous value for enum const" error appears depends on the hash order; Consts::debug_info lists the consts in the same order in the --output-debug-info file (fixes/c19-mapfile-enum-order.diff) *)
   mk_row "context/defs.rs" "CompilerContext::extend_from_mapfile" "iter" "mapfile.enums.iter()" 1 ["c0aa526eb3"] (PinStmt "7f192a11fb") EmitInIterationOrder "extend_from_mapfile/mapfile.enums";
   (* line 796; enums:field: IdMap<Ident,EnumData>|field: IdMap<Ident,ScalarValueMap<Sp<Ident>>>|field: IdMap<Sp<Ident>,Vec<(i32,Sp<Ident>)>>
      after fixes/c19-mapfile-enum-order.diff: Mapfile::enums is an IndexMap filled from a BTreeMap (only the two Defs-side `enums` fields remain hash maps: this declaration digest) *)
